@@ -99,7 +99,14 @@ pub fn absorb(
     }
     let mut foreign = 0;
     for v in &out.violations {
-        if mode.reports(v.class) {
+        // C07 also owns a read-class call (lookup, scan, listing) inside the write transaction that
+        // panics or reports the wrong error kind: the transaction cannot read its own changes
+        let read_op = match v.op {
+            Some(oi) => h.txs.get(v.tx).and_then(|t| t.ops.get(oi)).map(|o| o.is_read()).unwrap_or(false),
+            None => v.sig.starts_with("verify:"),
+        };
+        let c07_extra = mode == Mode::C07 && read_op && matches!(v.class, Class::Panic | Class::OpResult);
+        if mode.reports(v.class) || c07_extra {
             if shard.violations.iter().any(|x| x.sig == v.sig) {
                 continue;
             }
